@@ -1,4 +1,187 @@
-import GcmpyModel.Model.MCMC
+import Mathlib.Algebra.Order.Field.Basic
+import Mathlib.Tactic.FieldSimp
+import GcmpyModel.Lemmas.MCMC
+/-!
+# C12 — the acceptance test of the MCMC rewiring is a Metropolis test against the target matrices
+
+Model: `swapCondition` (`swap_condition` with the uniform draw `r` as an argument), `numerator`, `denominator`.
+Vocabulary (`Lemmas/MCMC.lean`): `createdWeights … (e0, e1)` = the two target entries looked up for the created
+edges `(u0, v1)`, `(v0, u1)`; `createdW` their product; `edgeWeight … e` = the target entry of an existing oriented
+edge; `removedW … (e0, e1)` the product of the two removed-edge entries.
+
+Proved: `created_edges_allowed` (+ `created_edges_positive`), `ratio_is_metropolis`, `no_divide_by_zero`,
+`detailed_balance`.  None of them needs the structural hypotheses of C11 — they hold for every call.
+NOT proved (statement about a random process, kept visible): `approaches_target_full`.
+-/
 namespace Gcmpy.MCMC
-theorem placeholder_c12 : True := trivial
+open Gcmpy Gcmpy.Graph Gcmpy.Loaders
+
+variable {G : Net} {names : List String} {target : Target} {u0 v0 : Nat} {e0s e1s : List Edge} {r : Rat}
+
+/-- 9. an accepted swap only creates pairings that the target allows: for every pair `(e0, e1)` of the pairing,
+    with `t` the topology of `e0`, `i` its index, `ejk` the target matrix of `t`, the entries of the two created
+    edges `(u0, v1)` and `(v0, u1)` are present and non-zero -/
+theorem created_edges_allowed (h : swapCondition G names target u0 v0 e0s e1s r = .accept) :
+    ∃ ps, pairUp G e0s e1s = some ps ∧ ∀ p ∈ ps, ∃ a0 i ejk a b,
+      attrOf G p.1.1 p.1.2 = some a0 ∧ topIndex names a0.top = some i ∧ Dict.get target a0.top = some ejk ∧
+      Dict.get ejk (excessOf G u0 i ++ excessOf G p.2.2 i) = some a ∧
+      Dict.get ejk (excessOf G v0 i ++ excessOf G p.1.2 i) = some b ∧ a ≠ 0 ∧ b ≠ 0 := by
+  obtain ⟨ps, top, bottom, hps, htop, _, _, _⟩ := swapCondition_accept h
+  refine ⟨ps, hps, ?_⟩
+  intro p hp
+  obtain ⟨a, b, hcw, ha, hb⟩ := (numerator_spec ps 1 top htop).1 p hp
+  unfold createdWeights at hcw
+  split at hcw
+  · exact absurd hcw (by simp)
+  · rename_i a0 h1
+    split at hcw
+    · rename_i i ejk h2 h3
+      split at hcw
+      · rename_i a' b' h4 h5
+        simp only [Option.some.injEq, Prod.mk.injEq] at hcw
+        obtain ⟨rfl, rfl⟩ := hcw
+        exact ⟨a0, i, ejk, a', b', h1, h2, h3, h4, h5, ha, hb⟩
+      · exact absurd hcw (by simp)
+    · exact absurd hcw (by simp)
+
+/-- 9'. with a non-negative target the created pairings have positive target weight -/
+theorem created_edges_positive (h : swapCondition G names target u0 v0 e0s e1s r = .accept)
+    (hnn : ∀ t ejk, Dict.get target t = some ejk → ∀ x ∈ ejk, 0 ≤ x.2) :
+    ∃ ps, pairUp G e0s e1s = some ps ∧ ∀ p ∈ ps, ∃ a0 i ejk a b,
+      attrOf G p.1.1 p.1.2 = some a0 ∧ topIndex names a0.top = some i ∧ Dict.get target a0.top = some ejk ∧
+      Dict.get ejk (excessOf G u0 i ++ excessOf G p.2.2 i) = some a ∧
+      Dict.get ejk (excessOf G v0 i ++ excessOf G p.1.2 i) = some b ∧ 0 < a ∧ 0 < b := by
+  obtain ⟨ps, hps, hall⟩ := created_edges_allowed h
+  refine ⟨ps, hps, ?_⟩
+  intro p hp
+  obtain ⟨a0, i, ejk, a, b, h1, h2, h3, h4, h5, ha, hb⟩ := hall p hp
+  have ha' : 0 ≤ a := hnn _ _ h3 _ (Dict_mem_of_get _ _ _ h4)
+  have hb' : 0 ≤ b := hnn _ _ h3 _ (Dict_mem_of_get _ _ _ h5)
+  exact ⟨a0, i, ejk, a, b, h1, h2, h3, h4, h5, lt_of_le_of_ne ha' (Ne.symm ha), lt_of_le_of_ne hb' (Ne.symm hb)⟩
+
+/-- 10. an accepted proposal passed the Metropolis test `r < top / bottom`, where `top` is the product over the
+    pairing of the two created-edge weights and `bottom` the product over `zip e0s e1s` of the two removed-edge
+    weights; every factor was actually found in the target, `top ≠ 0`, `bottom ≠ 0` -/
+theorem ratio_is_metropolis (h : swapCondition G names target u0 v0 e0s e1s r = .accept) :
+    ∃ ps top bottom, pairUp G e0s e1s = some ps ∧
+      numerator G names target u0 v0 ps 1 = some top ∧
+      denominator G names target (e0s.zip e1s) 1 = some bottom ∧
+      bottom ≠ 0 ∧ top / bottom > r ∧
+      top = (ps.map (createdW G names target u0 v0)).prod ∧
+      bottom = ((e0s.zip e1s).map (removedW G names target)).prod ∧
+      (∀ p ∈ ps, ∃ a b, createdWeights G names target u0 v0 p = some (a, b) ∧ a ≠ 0 ∧ b ≠ 0) ∧
+      (∀ p ∈ e0s.zip e1s, ∃ a b, edgeWeight G names target p.1 = some a ∧ edgeWeight G names target p.2 = some b) := by
+  obtain ⟨ps, top, bottom, hps, htop, hbot, hne, hgt⟩ := swapCondition_accept h
+  obtain ⟨n1, n2⟩ := numerator_spec ps 1 top htop
+  obtain ⟨d1, d2⟩ := denominator_spec (e0s.zip e1s) 1 bottom hbot
+  rw [one_mul] at n2 d2
+  exact ⟨ps, top, bottom, hps, htop, hbot, hne, hgt, n2, d2, n1, d1⟩
+
+/-- 10'. the created-edge product of an evaluated numerator is never zero (`top == 0.0 → return False`) -/
+theorem numerator_ne_zero {ps : List (Edge × Edge)} {top : Rat}
+    (h : numerator G names target u0 v0 ps 1 = some top) : top ≠ 0 := by
+  obtain ⟨n1, n2⟩ := numerator_spec ps 1 top h
+  rw [n2, one_mul]
+  apply prod_ne_zero_of_forall
+  intro x hx
+  obtain ⟨p, hp, rfl⟩ := List.mem_map.1 hx
+  obtain ⟨a, b, hcw, ha, hb⟩ := n1 p hp
+  simp only [createdW, hcw]
+  exact mul_ne_zero ha hb
+
+/-- 11. if no edge of the two corners has target weight `0` under its own oriented key, the division by zero
+    of `swap_condition` is never raised -/
+theorem no_divide_by_zero (hw : ∀ e ∈ e0s ++ e1s, edgeWeight G names target e ≠ some 0) :
+    swapCondition G names target u0 v0 e0s e1s r ≠ .raiseDivZero := by
+  intro h
+  unfold swapCondition at h
+  split at h
+  · exact absurd h (by simp)
+  · split at h
+    · exact absurd h (by simp)
+    · split at h
+      · exact absurd h (by simp)
+      · rename_i bottom hbot
+        obtain ⟨d1, d2⟩ := denominator_spec (e0s.zip e1s) 1 bottom hbot
+        have hne : bottom ≠ 0 := by
+          rw [d2, one_mul]
+          apply prod_ne_zero_of_forall
+          intro x hx
+          obtain ⟨p, hp, rfl⟩ := List.mem_map.1 hx
+          obtain ⟨a, b, ha, hb⟩ := d1 p hp
+          have hmem := List.of_mem_zip (show (p.1, p.2) ∈ e0s.zip e1s from hp)
+          have ha0 : a ≠ 0 := fun h0 => hw p.1 (List.mem_append_left _ hmem.1) (h0 ▸ ha)
+          have hb0 : b ≠ 0 := fun h0 => hw p.2 (List.mem_append_right _ hmem.2) (h0 ▸ hb)
+          simp only [removedW, ha, hb, Option.getD_some]
+          exact mul_ne_zero ha0 hb0
+        simp only [hne, if_false] at h
+        split at h <;> exact absurd h (by simp)
+
+/-- 11'. the hypothesis in the form of the property: every corner edge has a non-zero target weight -/
+theorem no_divide_by_zero' (hw : ∀ e ∈ e0s ++ e1s, ∃ w, edgeWeight G names target e = some w ∧ w ≠ 0) :
+    swapCondition G names target u0 v0 e0s e1s r ≠ .raiseDivZero := by
+  apply no_divide_by_zero
+  intro e he h0
+  obtain ⟨w, hw1, hw2⟩ := hw e he
+  rw [hw1, Option.some.injEq] at h0
+  exact hw2 h0
+
+/-- 12. detailed balance of the Metropolis rule: with acceptance probability `min 1 (π'/π)` (which is the
+    probability that a uniform `r ∈ [0,1)` satisfies `r < π'/π`) and a symmetric proposal, the flow `π → π'`
+    equals the flow `π' → π` -/
+theorem detailed_balance {K : Type} [Field K] [LinearOrder K] [IsStrictOrderedRing K] (p p' : K)
+    (hp : 0 < p) (hp' : 0 < p') : p * min 1 (p' / p) = p' * min 1 (p / p') := by
+  rcases le_total p p' with hle | hle
+  · rw [min_eq_left ((one_le_div hp).2 hle), min_eq_right ((div_le_one hp').2 hle)]
+    field_simp
+  · rw [min_eq_right ((div_le_one hp).2 hle), min_eq_left ((one_le_div hp').2 hle)]
+    field_simp
+
+example (p p' : Rat) (hp : 0 < p) (hp' : 0 < p') : p * min 1 (p' / p) = p' * min 1 (p / p') :=
+  detailed_balance p p' hp hp'
+
+/-! ## non-vacuity -/
+
+/-- two triangles whose vertices carry different joint degrees (excess `[1],[2],[2]` and `[3],[4],[4]`) -/
+def mixedTriangles : Net :=
+  { jd := [(0, [2]), (1, [3]), (2, [3]), (3, [4]), (4, [5]), (5, [5])],
+    edges := [((0, 1), ⟨"t", 0⟩), ((0, 2), ⟨"t", 0⟩), ((1, 2), ⟨"t", 0⟩),
+              ((3, 4), ⟨"t", 1⟩), ((3, 5), ⟨"t", 1⟩), ((4, 5), ⟨"t", 1⟩)] }
+
+def mixedTarget : Target := [("t", [([1, 4], 1/2), ([3, 2], 1/2), ([1, 2], 1/4), ([3, 4], 1/4)])]
+
+/-- an accepted proposal: `top = (1/2·1/2)² = 1/16`, `bottom = (1/4·1/4)² = 1/256`, ratio `16 > 1/2` -/
+example : swapCondition mixedTriangles ["t"] mixedTarget 0 3 [(0, 1), (0, 2)] [(3, 4), (3, 5)] (1/2) = .accept := by
+  decide +kernel
+example : numerator mixedTriangles ["t"] mixedTarget 0 3 [((0, 1), (3, 5)), ((0, 2), (3, 4))] 1 = some (1/16) := by
+  decide +kernel
+example : denominator mixedTriangles ["t"] mixedTarget [((0, 1), (3, 4)), ((0, 2), (3, 5))] 1 = some (1/256) := by
+  decide +kernel
+/-- the hypothesis of `no_divide_by_zero` is needed: a present edge with target weight `0` raises -/
+example : swapCondition mixedTriangles ["t"] [("t", [([1, 4], 1/2), ([3, 2], 1/2), ([1, 2], 0), ([3, 4], 1/4)])]
+    0 3 [(0, 1), (0, 2)] [(3, 4), (3, 5)] (1/2) = .raiseDivZero := by
+  decide +kernel
+/-- a created pairing that is absent from the target is never manufactured -/
+example : swapCondition mixedTriangles ["t"] [("t", [([3, 2], 1/2), ([1, 2], 1/4), ([3, 4], 1/4)])]
+    0 3 [(0, 1), (0, 2)] [(3, 4), (3, 5)] 0 = .reject := by
+  decide +kernel
+
+/-! ## kept visible, NOT proved -/
+
+/-- 13. NOT PROVED (a statement about the random process, and in this one-step form not even expected to hold for
+    every state — Metropolis chains converge in distribution, not monotonically): for a target with full
+    support, whatever finite proposal distribution `q` over suitable corner pairs is used, the expected L1 distance
+    to the target after one proposal does not exceed the current one -/
+def approaches_target_full : Prop :=
+  ∀ (G : Net) (names : List String) (target : Target),
+    WF G →
+    (∀ t ejk, Dict.get target t = some ejk → ∀ x ∈ ejk, 0 < x.2) →
+    ∀ q : List (Rat × (Nat × Nat × List Edge × List Edge)),
+      (∀ x ∈ q, 0 ≤ x.1 ∧ Ok G x.2.1 x.2.2.1 x.2.2.2.1 x.2.2.2.2) → (q.map (·.1)).sum = 1 →
+      (q.map fun x =>
+        let a := acceptProb G names target x.2.1 x.2.2.1 x.2.2.2.1 x.2.2.2.2
+        let G' := (applySwap G x.2.1 x.2.2.1 x.2.2.2.1 x.2.2.2.2).getD G
+        x.1 * (a * distToTarget G' names target + (1 - a) * distToTarget G names target)).sum
+      ≤ distToTarget G names target
+
 end Gcmpy.MCMC
